@@ -48,6 +48,8 @@ def _cov_values(k):
 
 
 _MOON = []
+_JPL = set()
+EXTRA_FRAMES = ["Moon", "EarthBarycenter", "MarsBarycenter"]
 
 
 def _frame(name):
@@ -57,6 +59,13 @@ def _frame(name):
             _MOON.append(solarsystem.get_frame("Moon"))
         return _MOON[0]
     from beyond.frames.frames import get_frame
+    if name in ("EarthBarycenter", "MarsBarycenter") and name not in _JPL:
+        # frames created from the JPL kernel shipped with the tests
+        from contracts.c18_bodies import _cfg
+        from beyond.env import jpl
+        _cfg()
+        jpl.create_frames()
+        _JPL.add(name)
     return get_frame(name)
 
 
@@ -220,27 +229,27 @@ MAN_SPECS = [(), (("impulsive", None, False),), (("impulsive", "TNW", True),), (
 
 
 def _grid_opm(tier, rng):
-    """frames (10 Earth-centred + Moon-centred) x 6 time scales x covariance {none, own frame, TNW, QSW, other frame} x 8 maneuver lists (0..3 maneuvers, both kinds, frames
+    """frames (10 Earth-centred + Moon-centred + the JPL kernel's Earth-Moon and Mars barycentres) x 6 time scales x covariance {none, own frame, TNW, QSW, other frame} x 8 maneuver lists (0..3 maneuvers, both kinds, frames
     None/TNW/QSW, comment or not) x user-defined fields {0, 1, 2} x name given by attribute or argument x StateVector or Orbit: a covering sample (quick 150, thorough 1500
     seeded cases) plus each single factor on its own"""
     n = 150 if tier == "quick" else 1500
     seen = set()
-    singles = [dict(frame=i) for i in range(11)] + [dict(scale=i) for i in range(6)] + [dict(cov=i) for i in range(5)] + [dict(man=i) for i in range(8)] \
+    singles = [dict(frame=i) for i in range(13)] + [dict(scale=i) for i in range(6)] + [dict(cov=i) for i in range(5)] + [dict(man=i) for i in range(8)] \
         + [dict(ud=i) for i in range(3)] + [dict(named=i) for i in range(2)] + [dict(orbit=1)] + [dict(epoch=i) for i in range(5)]
     for s in singles:
         yield {"frame": 0, "scale": 0, "cov": 0, "man": 0, "ud": 0, "named": 0, "orbit": 0, "epoch": 0, "k": 0, **s}
     for k in range(n):
-        yield {"frame": rng.randrange(11), "scale": rng.randrange(6), "cov": rng.randrange(5), "man": rng.randrange(8), "ud": rng.randrange(3), "named": rng.randrange(2),
+        yield {"frame": rng.randrange(13), "scale": rng.randrange(6), "cov": rng.randrange(5), "man": rng.randrange(8), "ud": rng.randrange(3), "named": rng.randrange(2),
                "orbit": rng.randrange(2), "epoch": rng.randrange(5), "k": k}
 
 
 def _build_opm(c):
     from beyond.orbits import StateVector, Orbit
     from beyond.propagators.kepler import Kepler
-    fr = (FRAMES + ["Moon"])[c.integer("frame")]
+    fr = (FRAMES + EXTRA_FRAMES)[c.integer("frame")]
     k = c.integer("k")
     x = _coords(k)
-    if fr == "Moon":
+    if fr in EXTRA_FRAMES:
         x = [v * (0.3 if i < 3 else 0.25) for i, v in enumerate(x)]
     date = _date(c.integer("epoch"), SCALES[c.integer("scale")])
     sv = Orbit(x, date, "cartesian", _frame(fr), Kepler()) if c.integer("orbit") else StateVector(x, date, "cartesian", _frame(fr))
@@ -250,7 +259,7 @@ def _build_opm(c):
     else:
         kw = {"name": "OTHER", "cospar_id": "1998-067A"}
     cov = c.integer("cov")
-    if fr == "Moon" and cov == 4:
+    if fr in EXTRA_FRAMES and cov == 4:
         cov = 1
     _attach_cov(sv, cov, k)
     _maneuvers(sv, MAN_SPECS[c.integer("man")], k)
@@ -338,11 +347,11 @@ def _grid_oem(tier, rng):
     n = 60 if tier == "quick" else 600
     base = {"segments": 1, "points": 9, "covs": 0, "covframe": 1, "frame": 0, "scale": 0, "method": 0, "order": 8, "k": 0}
     singles = [dict(segments=i) for i in (1, 2, 3)] + [dict(points=i) for i in (1, 2, 3, 9, 12)] + [dict(covs=i, covframe=j) for i in (1, 2, 3) for j in (1, 2, 3, 4)] \
-        + [dict(points=1, covs=1)] + [dict(frame=i) for i in range(11)] + [dict(scale=i) for i in range(6)] + [dict(method=1)] + [dict(order=i) for i in (2, 5, 7)]
+        + [dict(points=1, covs=1)] + [dict(frame=i) for i in range(13)] + [dict(scale=i) for i in range(6)] + [dict(method=1)] + [dict(order=i) for i in (2, 5, 7)]
     for s in singles:
         yield {**base, **s}
     for k in range(n):
-        yield {"segments": rng.randrange(1, 4), "points": rng.choice([1, 2, 3, 5, 9, 12]), "covs": rng.randrange(4), "covframe": rng.randrange(1, 5), "frame": rng.randrange(11),
+        yield {"segments": rng.randrange(1, 4), "points": rng.choice([1, 2, 3, 5, 9, 12]), "covs": rng.randrange(4), "covframe": rng.randrange(1, 5), "frame": rng.randrange(13),
                "scale": rng.randrange(6), "method": rng.randrange(2), "order": rng.randrange(2, 9), "k": k}
 
 
@@ -354,7 +363,7 @@ def _(c):
     from beyond.orbits import StateVector, Ephem
     from beyond.dates import timedelta
     k = c.integer("k")
-    fr = (FRAMES + ["Moon"])[c.integer("frame")]
+    fr = (FRAMES + EXTRA_FRAMES)[c.integer("frame")]
     scale = SCALES[c.integer("scale")]
     ephems = []
     for s in range(c.integer("segments")):
@@ -362,7 +371,7 @@ def _(c):
         n = c.integer("points")
         for i in range(n):
             x = _coords(k * 31 + s * 7 + i)
-            if fr == "Moon":
+            if fr in EXTRA_FRAMES:
                 x = [v * (0.3 if j < 3 else 0.25) for j, v in enumerate(x)]
             step = 60.0 if k % 4 else 0.25  # some ephemerides with several points within the same second
             sv = StateVector(x, _date(k + s, scale) + timedelta(seconds=step * i + 0.000001 * i), "cartesian", _frame(fr))
